@@ -642,7 +642,14 @@ class Ovld:
             self._defns[sig] = fn
 
         rebuild = self._begin_update()
-        _set(sig, fn)
+        before = dict(self._defns)
+        try:
+            _set(sig, fn)
+        except BaseException:
+            # Interrupted between two writes (an existing definition pushed
+            # down, the new one not in yet): nothing was registered
+            self._defns = before
+            raise
 
         self._update(rebuild)
         return self
